@@ -1723,6 +1723,12 @@ class DocutilsRenderer(RendererProtocol):
             position,
             additional_options=additional_options,
         )
+        for node in nodes_list:
+            # a directive that does not set the source position of its output would otherwise get
+            # `document.current_line`, which a directive nested in its body has moved on (or nothing at all,
+            # when the parent is not attached to the document yet)
+            if isinstance(node, nodes.Element) and node.line is None:
+                self.add_line_and_source_path(node, token)
         self.current_node += nodes_list
 
     def run_directive(
